@@ -2,6 +2,8 @@
 from vlib import core, gen
 
 LEVEL = "proof"
+TEXT = "The chunker's acceptance criterion (even number of %), losslessness and chunk shape are theorems for all strings (induction over the character list); the factory order and token regexes are pinned to facts regenerated from the shipped wiring; model and implementation are run on every string up to a length bound plus random Unicode and must agree on chunks, tokens, emitted code and %+q quoting."
+TECHNIQUE = 'Lean 4 induction proofs over the chunker model + exhaustive bounded/random model-vs-implementation correspondence'
 LEAN_PROPS = ["C03"]
 TRUSTED = ["runtime helpers of body.go.tpl (_concatenateChunks, _getEnv, …) and exporter.CastToString are modelled (Model/Token.evalTokens)"]
 ASSUMPTIONS = ["yaml.v3 yields valid UTF-8 strings", "Go's %+q agrees with GoQuote.quote (checked on every string of this run)"]
